@@ -66,3 +66,14 @@ func copyIn(dst, src []byte) int { return copy(dst, src) }
 // copyOut copies arena bytes into a library buffer; the write of dst is
 // visible to the race detector.
 func copyOut(dst, src []byte) int { return copy(dst, src) }
+
+// arenaSlice returns an empty slice of pointer-free T with capacity n whose
+// backing store is arena memory (no zeroing, no GC work, invisible to the
+// race detector).
+//
+//go:norace
+func arenaSlice[T any](n int) []T {
+	var z T
+	b := theArena.alloc(n * int(unsafe.Sizeof(z)))
+	return unsafe.Slice((*T)(unsafe.Pointer(&b[0])), n)[:0]
+}
